@@ -1,0 +1,8 @@
+//go:build verif
+
+package condition
+
+// Accessors for the verification harness (/verif). Compiled only with -tags verif.
+
+// VerifMatchesLikePattern exposes matchesLikePattern.
+func VerifMatchesLikePattern(text, pattern string) bool { return matchesLikePattern(text, pattern) }
